@@ -247,7 +247,10 @@ def run_cbo(case):
                 search.gather_type = "ALL"
             with observed(rec):
                 try:
-                    df = search.search(max_evals=case["evals"])
+                    # several search() calls on the same object (budgets accumulate); strict: MaximumJobsSpawnReached may end a call
+                    # in the middle of submitting an asked batch
+                    for n_call, strict in case.get("calls") or [[case["evals"], False]]:
+                        df = search.search(max_evals=n_call, max_evals_strict=bool(strict))
                     cols = ["p:x%d" % i for i in range(len(dims))]
                     df = df.assign(_jid=[int(str(j).split(".")[-1]) for j in df["job_id"]]).sort_values("_jid")
                     # the results are read back from results.csv: floats may differ by an ulp (pandas' parser): a row is identified
@@ -356,9 +359,11 @@ def _short(e):
 def check_cbo(case):
     N = space_size(case["dims"])
     res = dict(ok=True, kind="oracle", clause="", nontrivial=False,
-               sig=dict(strategy=case["strat"], surrogate=case["sur"], ff=case.get("ff", "min")),
+               sig=dict(strategy=case["strat"], surrogate=case["sur"], ff=case.get("ff", "min"),
+                        calls="strict" if any(st for _, st in case.get("calls") or []) else ("multi" if case.get("calls") else "one")),
                desc=["sur=" + case["sur"], "strat=" + case["strat"], "nw=%d" % case["nw"], "N=%s" % N, "ff=" + case.get("ff", "min"),
-                     "dims=" + "+".join(sorted(set(d[0] for d in case["dims"]))), "fail=" + case.get("fail", ["none"])[0], "gather=" + case.get("gather", "BATCH")])
+                     "dims=" + "+".join(sorted(set(d[0] for d in case["dims"]))),
+                     "calls=%d" % len(case.get("calls") or [0]), "strict" if any(st for _, st in case.get("calls") or []) else "not_strict", "fail=" + case.get("fail", ["none"])[0], "gather=" + case.get("gather", "BATCH")])
     rec, cfg, rows, error = run_cbo(case)
     if error is not None:
         kind = error.split(":")[0]
@@ -448,12 +453,33 @@ def gen_cbo(count, surrogates, big=False, cont=False):
             if sur == "GP":
                 c["evals"] = min(c["evals"], 28)
                 c["freq"] = rng.choice([1, 2, 10])
+            if i % 4 == 2:
+                # the same budget spent in 2..4 search() calls, some of them strict (the call may stop between an ask and its tell)
+                left, calls = c["evals"], []
+                for _k in range(rng.randint(2, 4)):
+                    if left <= 0:
+                        break
+                    n_call = rng.randint(1, max(1, min(left, ninit + 2 * nw + 3)))
+                    calls.append([n_call, rng.random() < 0.6])
+                    left -= n_call
+                if left > 0:
+                    calls.append([left, rng.random() < 0.5])
+                c["calls"] = calls
             yield c
     return g
 
 
 def shrink_cbo(case):
-    if case["evals"] > 2:
+    calls = case.get("calls")
+    if calls:
+        for i in range(len(calls)):
+            if len(calls) > 1:
+                yield dict(case, calls=calls[:i] + calls[i + 1:])
+            if calls[i][0] > 1:
+                yield dict(case, calls=calls[:i] + [[calls[i][0] - 1, calls[i][1]]] + calls[i + 1:])
+            if calls[i][1]:
+                yield dict(case, calls=calls[:i] + [[calls[i][0], False]] + calls[i + 1:])
+    if case["evals"] > 2 and not calls:
         yield dict(case, evals=case["evals"] - max(1, case["evals"] // 4))
         yield dict(case, evals=case["evals"] - 1)
     if case["nw"] > 1:
